@@ -848,10 +848,11 @@ func (g *pg) sink(c sctx) string {
 	n := g.pick(6, "nattr")
 	perm := rapid.Permutation([]int{0, 1, 2, 3, 4}).Draw(g.rt, "attrperm")
 	for i := 0; i < n; i++ {
+		// (also a comment of its own, with an empty line before or after it, in front of an attribute)
 		if i == 0 {
-			sb.WriteString(g.oneOf("atsep0", "\n    ", " ", "\n") + attrs[perm[i]])
+			sb.WriteString(g.oneOf("atsep0", "\n    ", " ", "\n", "\n    /* at */\n\n    ", "\n\n    /* at */\n    ", "\n    # at\n\n    ") + attrs[perm[i]])
 		} else {
-			sb.WriteString(g.oneOf("atsep", "\n    ", ", ", ",\n  ", "\n") + attrs[perm[i]])
+			sb.WriteString(g.oneOf("atsep", "\n    ", ", ", ",\n  ", "\n", "\n    /* at */\n\n    ", ",\n\n  /* at */\n  ", ",\n    # at\n\n    ", "\n\n\n    ") + attrs[perm[i]])
 		}
 	}
 	sc := c
